@@ -138,7 +138,31 @@ def parse_scalar(tp, s, attr, scope, schema, path, out):
     raise KsyError("type %r is not a primitive of the dialect" % tp)
 
 
+class EnumValue(int):
+    """an integer field with an `enum:` key: Kaitai yields the enumeration member when the value is declared, the bare integer otherwise"""
+    label = None
+
+    def __repr__(self):
+        return "%s(%d)" % (self.label, int(self)) if self.label is not None else int.__repr__(self)
+
+
 def parse_field(attr, s, scope, schema, path, out):
+    v = parse_field_(attr, s, scope, schema, path, out)
+    en = attr.get("enum")
+    if en is not None:
+        if en not in schema.get("enums", {}):
+            raise KsyError("field %r refers to enum %r, which the schema does not declare" % (attr.get("id"), en))
+        if isinstance(v, bool) or not isinstance(v, int):
+            raise KsyError("enum %r on a non-integer field %r" % (en, attr.get("id")))
+        table = schema["enums"][en]
+        ev_ = EnumValue(v)
+        if v in table:
+            ev_.label = table[v]
+        return ev_
+    return v
+
+
+def parse_field_(attr, s, scope, schema, path, out):
     """one seq entry (without repetition) -> value"""
     attr = dict(attr)
     tp = attr.get("type")
